@@ -70,6 +70,8 @@ def gen(rng, tier):
         # the sub-project task works on a component of its own, in a workplace of its own that can always take it
         pm["comps"] = list(pm.get("comps") or []) + [{"id": "csub", "size": 1.0, "children": []}]
         pm["tasks"][i]["comp"] = len(pm["comps"]) - 1
+        if rng.random() < 0.5:
+            pm["tasks"][i]["nf"] = True  # automatic and facility-needing: automatic wins, nothing is allocated
         pm["wps"] = list(pm.get("wps") or []) + [{"id": "psub", "cap": rng.choice([1.0, 2.0, float("inf")]), "targets": [i], "inputs": [],
                                                    "facs": [{"id": "fsub", "skills": {"sub": 1.0}, "cost": 0.0}]}]
         pm.pop("reg_order", None)
